@@ -1,5 +1,7 @@
 """C02 Expression text parses to the tree the precedence rules dictate (DESIGN 4, C02)."""
 
+import itertools
+
 from ..common import HarnessError, load_impl
 from ..engine.shard import Acc, Family, split
 from ..gen import exprs as gx
@@ -278,6 +280,69 @@ def fam_soup(arg):
 
 
 # ---------------------------------------------------------------------------------------------------------------------
+# (e) string literals: the VALUE of the leaf (escape rule), both quote kinds
+
+# Pieces of a literal's body; Q = the literal's own quote character, O = the other one. Only backslash+backslash and
+# backslash+own-quote are escapes; everything else - backslash+other-quote, backslash+letter, the other quote - is literal
+# text, backslash included. (piece text, its value or None when the value depends on what follows)
+STRING_PIECES = [('a', 'a'), ('\\Q', 'Q'), ('\\O', '\\O'), ('\\\\', '\\'), ('\\n', '\\n'), ('\\f', '\\f'), ('\\u', '\\u'), ('O', 'O'), (' ', ' '),
+                 ('\\', None)]
+STRING_MAX_PIECES = 3
+STRING_CONTEXTS = ['{L}', 'fn(x, {L})', '{L} + x', 'x == {L}']
+
+
+def string_literal(quote, idx):
+    """(literal text, value by construction or None if the body contains a lone backslash piece)."""
+    other = '"' if quote == "'" else "'"
+    body, value = [], []
+    for i in idx:
+        text, val = STRING_PIECES[i]
+        body.append(text.replace('Q', quote).replace('O', other))
+        value.append(None if val is None else val.replace('Q', quote).replace('O', other))
+    return quote + ''.join(body) + quote, (None if None in value else ''.join(value))
+
+
+def check_strings(case, acc):
+    quote = "'" if case['quote'] == 'single' else '"'
+    literal, value = string_literal(quote, case['pieces'])
+    if value is not None:
+        # the reference lexer against the value known by construction
+        ref = rx.parse_outcome(literal)
+        if ref != ('ok', {'string': value}):
+            raise HarnessError(f'C02 reference lexer reads {literal!r} as {ref!r}, by construction it is {value!r}')
+    kinds = []
+    for ctx in STRING_CONTEXTS:
+        kind, _ = compare_text(ctx.replace('{L}', literal), acc, dict(case, context=ctx))
+        kinds.append(kind)
+    return kinds[0], value
+
+
+def fam_strings(arg):
+    acc = Acc('strings')
+    for quote, first in arg:
+        last = None
+        for n in range(0 if first is None else 1, STRING_MAX_PIECES + 1):
+            if first is None and n > 0:
+                break
+            for rest in itertools.product(range(len(STRING_PIECES)), repeat=max(0, n - 1)):
+                idx = [] if first is None else [first] + list(rest)
+                acc.cases += 1
+                kind, value = check_strings({'quote': quote, 'pieces': idx}, acc)
+                acc.outcome((kind, value if len(idx) <= 2 else len(value or '')))
+                if kind == 'ok' and value is not None and any(STRING_PIECES[i][0] != STRING_PIECES[i][1] for i in idx):
+                    acc.nontrivial += 1        # an accepted literal whose value differs from its body text
+                last = idx
+        if last is not None:
+            acc.sample({'literal': string_literal("'" if quote == 'single' else '"', last)[0], 'contexts': STRING_CONTEXTS})
+    return acc.result()
+
+
+def string_shards():
+    """(quote kind, first piece or None for the empty literal)."""
+    return [[(q, None)] + [(q, i) for i in range(len(STRING_PIECES))] for q in ('single', 'double')]
+
+
+# ---------------------------------------------------------------------------------------------------------------------
 
 
 def _shards(units, nlong):
@@ -305,18 +370,22 @@ def families(tier):
         Family('trees', fam_trees, [(tier, u) for u in split(tree_units, 96 if quick else 224)],
                f'every tree with <= {tmax} internal nodes over 7 binary levels, ! and -, group, call/1, call/2, leaves a 1 \'s\'; minimal and full parentheses',
                expected=sum(gx.tree_count(n) for n in range(tmax + 1))),
+        Family('strings', fam_strings, [[u] for shard in string_shards() for u in shard],
+               f'every string literal whose body is a sequence of 0..{STRING_MAX_PIECES} pieces over {len(STRING_PIECES)} pieces (own/other quote escaped and '
+               f'unescaped, double backslash, backslash+letter, lone backslash), both quote kinds, in {len(STRING_CONTEXTS)} contexts (alone, call argument, operand)',
+               expected=2 * sum(len(STRING_PIECES) ** k for k in range(STRING_MAX_PIECES + 1))),
         Family('soup', fam_soup, [(tier, u) for u in _shards(gx.chain_units(16), 128)],
                f'every sequence of 1..{slen} tokens over {len(gx.SOUP)} tokens joined by single spaces (+ compact form when lexically unambiguous)',
                expected=sum(16 ** k for k in range(1, slen + 1))),
     ]
 
 
-_CHECKS = {'chains': check_chains, 'levels': check_levels, 'trees': check_trees, 'soup': check_soup}
+_CHECKS = {'chains': check_chains, 'levels': check_levels, 'trees': check_trees, 'soup': check_soup, 'strings': check_strings}
 
 
 def replay(family, case):
     acc = Acc(family)
-    case = {k: v for k, v in case.items() if k not in ('text', 'variant', 'style')}
+    case = {k: v for k, v in case.items() if k not in ('text', 'variant', 'style', 'context')}
     _CHECKS[family](case, acc)
     res = acc.result()
     return {'differs': bool(res['nviol'] or res['nknown']), 'violations': res['violations'] + res['known_violations']}
